@@ -69,22 +69,8 @@ theorem foldl_fromLineStep_error_notFormat {C : Ctx} {sch : Option Scheme} {ln :
       exact fieldStep_error_notFormat hf
     | ok q => rw [hf] at h; exact ih q.1 q.2 h
 
-theorem assertFail_notFormat {r : Record} {e : PyErr} (h : r.assertFail = some e) : e.notFormat := by
-  unfold Record.assertFail at h
-  split at h
-  · cases h
-  · split at h
-    · rename_i e' he'
-      cases h
-      unfold Record.assertionsHold at he'
-      split at he'
-      · cases he'; exact trivial
-      · cases he'
-    · cases h; exact trivial
-    · cases h
-
 /-- **parsing never raises a `MafFormatException`**: the exception that aborts the
-    stringency-independent parse of a line is a `ValueError`, `TypeError`, `AssertionError`, … -/
+    stringency-independent parse of a line is a `ValueError`, `TypeError`, … (raised by `record[name] = column`) -/
 theorem parsedLine_error_notFormat {C : Ctx} {line : Text} {cn : Option (List Text)} {sch : Option Scheme}
     {ln : Option Nat} {e : PyErr} (h : parsedLine C line cn sch ln = .error e) : e.notFormat := by
   unfold parsedLine at h
@@ -102,11 +88,7 @@ theorem parsedLine_error_notFormat {C : Ctx} {line : Text} {cn : Option (List Te
           cases hpre
           exact foldl_fromLineStep_error_notFormat _ _ _ hf
         · cases hpre
-  · split at h
-    · rename_i e' ha
-      cases h
-      exact assertFail_notFormat ha
-    · cases h
+  · cases h
 
 
 theorem cmpKV_error {a b : KV} {e : PyErr} (h : cmpKV a b = .error e) : e = .type := by
